@@ -228,6 +228,8 @@ prop(
     jobs=[
         {"test": "TestC01", "checks": 3000, "timeout": 300, "thorough": {"checks": 40000, "shards": 16, "timeout": 1700}},
         {"test": "TestC01Sweep", "rapid": False, "timeout": 120},
+        # coverage-guided search inside the generator's domain (fuzzer bytes drive the rapid generators), thorough tier only
+        {"test": "FuzzC01RoundTrip", "fuzz": "FuzzC01RoundTrip", "rapid": False, "fuzztime": "120s", "timeout": 600, "mem_gb": 12, "quick": {"skip": True}},
     ],
     floor={"quick": 500, "thorough": 20000},
 )
@@ -254,6 +256,7 @@ prop(
         {"test": "TestC02", "checks": 2500, "timeout": 300, "thorough": {"checks": 25000, "shards": 12, "timeout": 1700}},
         {"test": "TestC02Exhaustive", "rapid": False, "exhaustive": True, "replay_test": "TestC02Replay", "timeout": 600, "shards": 4},
         {"test": "TestC02Findings", "rapid": False, "timeout": 60},
+        {"test": "FuzzC02RoundTrip", "fuzz": "FuzzC02RoundTrip", "rapid": False, "fuzztime": "120s", "timeout": 600, "mem_gb": 12, "quick": {"skip": True}},
     ],
     floor={"quick": 500, "thorough": 10000},
 )
@@ -280,6 +283,7 @@ prop(
         {"test": "TestC03", "checks": 1500, "timeout": 400, "thorough": {"checks": 15000, "shards": 12, "timeout": 1700}},
         {"test": "TestC03Real", "rapid": False, "timeout": 600, "thorough": {"shards": 4, "timeout": 1700}},
         {"test": "TestC03Findings", "rapid": False, "timeout": 60},
+        {"test": "FuzzC03Translate", "fuzz": "FuzzC03Translate", "rapid": False, "fuzztime": "120s", "timeout": 600, "mem_gb": 12, "quick": {"skip": True}},
         # with the beta SPDX 3 serializer linked (dedicated binary)
         {"test": "TestC03", "checks": 400, "timeout": 400, "tags": "verifbeta", "thorough": {"checks": 4000, "shards": 4, "timeout": 1700}},
     ],
@@ -335,6 +339,7 @@ prop(
         {"test": "TestC05IdentifierSweep", "rapid": False, "timeout": 300, "shards": 4, "thorough": {"shards": 4, "timeout": 600}},
         {"test": "TestC05Real", "rapid": False, "timeout": 400, "thorough": {"shards": 4, "timeout": 1700}},
         {"test": "TestC05Findings", "rapid": False, "timeout": 60},
+        {"test": "FuzzC05Layout", "fuzz": "FuzzC05Layout", "rapid": False, "fuzztime": "120s", "timeout": 600, "mem_gb": 12, "quick": {"skip": True}},
     ],
     floor={"quick": 200, "thorough": 2000},
 )
